@@ -533,12 +533,57 @@ def gen_dr(rng, tier, cs):
                 tuple(x0)) if N > 0 else None)
 
 
+def gen_dca(rng, tier, cs):
+    from odl.solvers.nonsmooth.difference_convex import dca, prox_dca
+    import odl
+    for k in range(16 if tier == 'quick' else 160):
+        n = rng.randint(1, 4)
+        prox = bool(k % 2)
+        sp_ = _rn(n)
+        g = _fk(rng, n, 'grad')
+        if prox:
+            f = _fk(rng, n, 'prox')
+        else:      # f needs a conjugate with a gradient: (translated) c * L2sq
+            lam = rng.choice([0.5, 1.0, 2.0])
+            f = F('l2sq', '(FL2sq %s)' % C.q(lam), (lambda sp, lam=lam: lam * odl.solvers.L2NormSquared(sp)), '%g*L2sq' % lam)
+            if rng.random() < 0.5:
+                c = _vec(rng, n, -2, 2)
+                inner = f
+                f = F('trans', '(FTrans %s %s)' % (inner.coq, C.qs(c)),
+                      (lambda sp, inner=inner, c=c: inner.build(sp).translated(c)), inner.desc + '.translated')
+        gamma = _dy(rng)
+        x0 = _vec(rng, n)
+        N = min(_niter(rng, tier, k // 2), 10)
+        fo, go = f.build(sp_), g.build(sp_)
+
+        def run(x, it, cb=None):
+            if prox:
+                prox_dca(x, fo, go, it, gamma, callback=cb)
+            else:
+                dca(x, fo, go, it, callback=cb)
+        t1, c1 = _rec()
+        x = sp_.element(x0)
+        run(x, N, c1)
+        sp = []
+        for n1 in range(N + 1):
+            x = sp_.element(x0)
+            run(x, n1)
+            run(x, N - n1)
+            sp.append(np.asarray(x).tolist())
+        if not np.all(np.isfinite(np.array(t1 + sp, dtype=float))) or (t1 and np.max(np.abs(np.array(t1))) > 1e9):
+            continue
+        cs.add('{| kq_prox := %s; kq_f := %s; kq_g := %s; kq_gamma := %s; kq_x := %s; kq_n := %d; kq_tr := %s; '
+               'kq_split := %s |}' % (C.b(prox), f.coq, g.coq, C.q(gamma), C.qs(x0), N, C.qss(t1), C.qss(sp)),
+               {'solver': 'prox_dca' if prox else 'dca', 'f': f.desc, 'g': g.desc, 'gamma': gamma, 'x0': x0, 'niter': N},
+               ('dca', prox, n, f.coq, g.coq, gamma, N, tuple(x0)) if N > 0 else None)
+
+
 GENS = [('fk', 'check_fk', 'case_fk', gen_fk), ('admm', 'check_admm', 'case_admm', gen_admm),
         ('adupdates', 'check_adup', 'case_adup', gen_adup), ('doubleprox_dc', 'check_dpdc', 'case_dpdc', gen_dpdc),
         ('pdhg', 'check_pdhg', 'case_pdhg', gen_pdhg), ('landweber', 'check_lw', 'case_lw', gen_lw),
         ('kaczmarz', 'check_kz', 'case_kz', gen_kz), ('proximal_gradient', 'check_pg', 'case_pg', gen_pg),
         ('mlem', 'check_em', 'case_em', gen_em), ('steepest_descent', 'check_sd', 'case_sd', gen_sd),
-        ('douglas_rachford_pd', 'check_dr', 'case_dr', gen_dr)]
+        ('douglas_rachford_pd', 'check_dr', 'case_dr', gen_dr), ('dca', 'check_dca', 'case_dca', gen_dca)]
 
 
 def correspondence(rng, tier):
@@ -1093,8 +1138,8 @@ def probes(rng, tier):
     return out
 
 
-RULE = ('per solver (admm_linearized[_simple], adupdates[_simple], doubleprox_dc[_simple], pdhg, landweber, kaczmarz, '
-        'proximal_gradient, mlem/osmlem, steepest_descent): random integer matrices of sizes 1..3 (quick) / 1..4 '
+RULE = ('per solver (admm_linearized[_simple], adupdates[_simple], doubleprox_dc[_simple], dca, prox_dca, pdhg, landweber, '
+        'kaczmarz, proximal_gradient, mlem/osmlem, steepest_descent, douglas_rachford_pd): random integer matrices of sizes 1..3 (quick) / 1..4 '
         '(thorough) as MatrixOperator on rn, functionals drawn from {Zero, c*L1, c*L2^2, IndicatorBox, '
         'IndicatorNonnegativity, translated(...), ||Mx-b||^2}, dyadic step sizes, half-integer start points, '
         'niter in {0, 1, 2} and random up to 8 / 20; per case the callback-recorded iterates of the optimised and of '
